@@ -5,7 +5,7 @@ CFG = {
     "lean": "Aqv.Props.C06",
     "exe": "aqmodel_c06",
     "harness": "c06",
-    "gen": ["txparams"],
+    "gen": ["txparams", "translated"],
     "timeout": {"quick": 600, "thorough": 3000},
     "trivial_outputs": ["err"],
     "rule": "ig: IntrinsicGas on boundary and random data; gp: GasPool scripts with uint64 boundary amounts (incl. the AddGas panic); msg: one "
